@@ -21,6 +21,11 @@ Scenarios == UNION {{Scen(cx, cs, r) : cs \in CallSets(cx), r \in Renders(cx)} :
 ASSUME \A o \in OutPkgs : \A k \in CoreKinds(o) :
          PrintT("TREE " \o ToJson([out |-> o, kind |-> k, core |-> CoreOf(o, k), mods |-> SetToSeq(MkTree(o, k).mods)]))
 
+\* what the spec takes for Python's typing names among the names the type strings mention (the harness compares it with
+\* typing.__all__ of the interpreter, and the free names with Python's own parse of the text)
+ASSUME PrintT("CONST " \o ToJson([pytyping |-> SetToSeq(PyTyping \cap UNION {ty[2] : ty \in Types}),
+                                  types |-> SetToSeq({[text |-> ty[1], ids |-> SetToSeq(ty[2]), quals |-> SetToSeq(ty[3])] : ty \in Types})]))
+
 Init == sc \in Scenarios /\ done = FALSE
 Emit == ~done /\ done' = TRUE /\ UNCHANGED sc /\ PrintT("SCEN " \o ToJson(sc))
 Spec == Init /\ [][Emit]_<<sc, done>>
